@@ -537,6 +537,25 @@ func revokeCert(sc *storageContext, config *crlConfig, cert *x509.Certificate) (
 			resp.Data["revocation_time_rfc3339"] = curRevInfo.RevocationTimeUTC.Format(time.RFC3339Nano)
 		}
 
+		if !config.AutoRebuild {
+			// The revocation entry may stem from an earlier attempt whose CRL
+			// rebuild failed or was interrupted (storage error, restart). With
+			// auto-rebuild off nothing else would repair that, so make sure the
+			// CRL served after this call lists the serial.
+			warnings, crlErr := sc.Backend.crlBuilder.rebuild(sc, false)
+			if crlErr != nil {
+				switch crlErr.(type) {
+				case errutil.UserError:
+					return logical.ErrorResponse("Error during CRL building: %s", crlErr), nil
+				default:
+					return nil, fmt.Errorf("error encountered during CRL building: %w", crlErr)
+				}
+			}
+			for index, warning := range warnings {
+				resp.AddWarning(fmt.Sprintf("Warning %d during CRL rebuild: %v", index+1, warning))
+			}
+		}
+
 		return resp, nil
 	}
 
